@@ -240,9 +240,24 @@ def main():
         lines.append(f"KNOWN-FINDING: property={pid} class={cls} {known[cls]} (e.g. scenario {sids[0]}; {len(sids)} hit(s))")
     if mon_fail and not crashed:
         s = byid[mon_fail[0]]
+        # the reported failing input is minimised: calls / operations / threads are removed while the monitor still rejects
+        # what the implementation does (tools/shrink.py); the scenario as generated is kept beside it
+        original_text = s.text()
+        shrunk_from = None
+        if not replay and os.environ.get("VERIF_NO_SHRINK") is None:
+            try:
+                import shrink
+                s2, r2, ntried = shrink.shrink(P, driver, pid, s, res[s.sid])
+                if s2 is not s:
+                    shrunk_from = {"scenario_text": original_text, "candidates_run": ntried}
+                    res[s2.sid] = r2
+                    s = s2
+            except Exception as ex:
+                notes.append(f"shrinking failed: {ex}")
         fn = hl.write_replay(pid, {"property": pid, "kind": "monitor-failed-on-implementation",
                                    "scenario": P.to_replay(s), "scenario_text": s.text(),
                                    "implementation_observation": res[s.sid]["obs"] or res[s.sid]["bobs"],
+                                   "minimised_from": shrunk_from,
                                    "others": mon_fail[1:20]})
         lines.append(f"VIOLATION property={pid} replay={fn}")
         violations += len(mon_fail)
